@@ -159,3 +159,132 @@ def run_c01(rep, tier):
     rep.cov['states'] = structures
     rep.cov['transitions'] = structures
     rep.cov['states_meaning'] = '(formula, bound) pairs decided unsat; each covers every total structure of its bound (7^3*2^6 = 21,952 at n=3)'
+
+
+# ------------------------------------------------------------------ C02 / C03
+def ltl_sets(tier):
+    lv = formulas.ltl_paths(3 if True else 2)
+    quick = ['A %s' % formulas.par(g) for g in formulas.ATOMS4 + formulas.ltl_level1(formulas.ATOMS4) + lv[2]]
+    r = rng('ltl-e3')
+    deep = r.sample(lv[3], 400)
+    return quick, ['A %s' % formulas.par(g) for g in deep]
+
+
+def with_e(ftxts, logic='LTL'):
+    out = []
+    for t in ftxts:
+        f = mc.parse(logic, t)
+        out.append((formulas.count_elementary(f.subformula(0)), t))
+    return out
+
+
+def run_c02(rep, tier):
+    rep.assumptions += ['total Kripke structures with n<=2 (3 thorough) states over atoms {p,q}; path formulas from the stated sets, cut by the number of elementary formulas e (the tableau has n*2^e nodes)',
+                        'reference = product with assignments to elementary formulas + Emerson-Lei; unrolling depth found on a reduced twin, stability of every fixpoint proved by the solver',
+                        'fixed tree at commit a1b7f49 or later (two tableau defects repaired, see known_findings.json)']
+    rep.cov['trusted_base'] = TRUSTED
+    rep.cov['explanation'] = ('LTL.modelcheck incl. _get_closure, _build_atoms (the list that grows while iterated), _TableuAtom, _Tableu, SCCs, reversal and '
+                              'reachability executed symbolically on a structure with unknown transitions/labels; per formula one merged run covers every total '
+                              'structure of the bound; z3 proves result == product oracle circuit; excluded states of the oracle are certified by a concrete lasso '
+                              'checked with an independent lasso evaluator')
+    validate_mc(rep, 'LTL', 40 if tier == 'quick' else 150, ns=(1, 2, 3))
+    quick, deep = ltl_sets(tier)
+    we = with_e(quick)
+    deep_e = with_e(deep[:120 if tier == 'quick' else 400])
+    e3 = [t for e, t in deep_e if e == 3]
+    e4 = [t for e, t in deep_e if e == 4]
+    tasks = []
+    small = [t for e, t in we]
+    tasks += [('LTL', 1, ch, {}) for ch in chunks(small, 40)]
+    tasks += [('LTL', 2, ch, {}) for ch in chunks([t for e, t in we if e <= 1], 16)]
+    tasks += [('LTL', 2, ch, {}) for ch in chunks([t for e, t in we if e == 2], 4)]
+    ne3 = 12 if tier == 'quick' else 60
+    tasks += [('LTL', 2, [t], {}) for t in e3[:ne3]]
+    tasks += [('LTL', 1, ch, {}) for ch in chunks(e3[:40] + e4[:20], 10)]
+    nforms = len(small) + ne3
+    if tier == 'thorough':
+        tasks += [('LTL', 2, [t], {}) for t in e4[:6]]
+        n3 = [t for e, t in we if e <= 1][:80]
+        tasks += [('LTL', 3, [t], {}) for t in n3]
+    rep.cov['bounds'].update(n='1..2' + (' ; n=3 for 80 formulas with e<=1' if tier == 'thorough' else ''), formulas=nforms,
+                             formula_sets='A g for g in: atoms, depth 1 over {p,q,true,false}, depth 2 over {p,q} (e<=2), %d seeded depth-3 formulas with e=3' % ne3,
+                             loop_bounds='folded runs: loops unroll until no input needs another iteration; every loop-terminating fold is re-proved by the solver',
+                             no_fold='not available for the tableau: without reduction the closure worklist becomes symbolic-length and sorted() of it is outside the evaluator; the simplifier is audited by re-proved rewrite lemmas here and by the raw runs of C01/C12/C13')
+    done = 0
+    certs = 0
+    for t, st, recs, secs in pmap(mc.mc_task, tasks, mem_heavy=(tier == 'thorough')):
+        if st != 'ok':
+            rep.inconclusive('task %s n=%s %s: %s' % (t[0], t[1], t[2][:2], recs))
+            continue
+        absorb_mc(rep, 'C02', recs, ('verdict', 'noexc', 'unwind', 'stable'), 'LTL.modelcheck(K, A g) == {s : every path from s satisfies g} on every total K with n states')
+        done += sum(1 for r in recs if r.get('verdict') == 'unsat')
+    # lasso certificates for the oracle's exclusions
+    cert_forms = [t for e, t in we][::(9 if tier == 'quick' else 2)]
+    for t, st, r, secs in pmap(mc.certify_task, [(ch,) for ch in chunks(cert_forms, 10)]):
+        if st != 'ok':
+            rep.inconclusive('lasso certificates: %s' % r)
+            continue
+        for c in r:
+            certs += c['certified']
+            if c['failed']:
+                rep.inconclusive('oracle exclusion without lasso certificate: %s' % c)
+        if r and len(rep.cov['samples']) < 14:
+            rep.cov['samples'].append(dict(lasso_certificate=r[0]))
+    rep.cov['lasso_certificates'] = certs
+    rep.cov['traces_validated_against_impl'] += 0
+    rep.cov['programs'] = nforms
+    rep.cov['states'] = done
+    rep.cov['transitions'] = done
+    rep.cov['states_meaning'] = '(formula, n) pairs decided unsat; each covers every total structure with n states over {p,q}'
+
+
+def ctls_set(tier):
+    P = formulas.par
+    l1 = formulas.ltl_level1(formulas.ATOMS2)
+    out = []
+    out += ['%s %s' % (q, P(g)) for q in 'AE' for g in l1]                                   # one quantifier, one operator (CTL fast path)
+    inner = ['A X q', 'E G q', 'E (p U q)', 'A F p', 'E X p', 'A (p R q)']
+    for g in ['X %s', 'F %s', 'G %s', '(p U %s)', '(%s U p)', '(p R %s)', '(%s and X p)', '(not %s)', '(%s --> F q)']:
+        for s in inner:
+            for q in 'AE':
+                out.append('%s %s' % (q, P(g % P(s))))                                         # quantifier nesting 2
+    lv2 = formulas.ltl_paths(2)[2]
+    r = rng('ctls-lv2')
+    for g in r.sample(lv2, 90 if tier == 'quick' else 300):
+        out.append('%s %s' % (r.choice('AE'), P(g)))                                           # two path operators under one quantifier: LTL fallback
+    out += ['(E F p and A G q)', '(A X p or E X q)', 'not E (F p and G q)', '(E F G p --> A G F p)', 'A (F G q --> E G p)', 'E (p U (A X q and X p))',
+            'E F X q', 'A G F p', 'E G F p', 'E (F p and F q)', 'A (X p or X not p)', 'E (X p and X not p)', 'p', 'true', 'not q',
+            '(p and A X E X q)', 'E X A X p', 'A F E G p', 'E (A G p U E G q)', 'A ((E X p) R q)', 'E not (p U q)', 'A not (p R q)', 'A (p --> X p)', 'E G (p --> X q)']
+    return list(dict.fromkeys(out))
+
+
+def run_c03(rep, tier):
+    rep.assumptions += ['total Kripke structures with n<=2 (3 thorough) states over {p,q}; formulas: quantifier nesting <=2, <=3 temporal operators per quantifier, from the stated sets',
+                        'reference = CTL* product oracle (state subformulas first); same stability obligations as C02']
+    rep.cov['trusted_base'] = TRUSTED
+    rep.cov['explanation'] = ('CTLS.modelcheck incl. the clone, fresh-atom labelling of the clone, the CTL fast path, the TypeError->LTL fallback and the E g = not A not g branch, '
+                              'executed symbolically; per formula one merged run covers every total structure of the bound; z3 proves result == CTL* oracle circuit')
+    validate_mc(rep, 'CTLS', 30 if tier == 'quick' else 120, ns=(1, 2, 3))
+    fs = ctls_set(tier)
+    tasks = [('CTLS', 1, ch, {}) for ch in chunks(fs, 30)]
+    tasks += [('CTLS', 2, ch, {}) for ch in chunks(fs, 3)]
+    if tier == 'thorough':
+        small = [t for t in fs if formulas.temporal_ops(mc.parse('CTLS', t)) <= 2][:40]
+        tasks += [('CTLS', 3, [t], {}) for t in small]
+        tasks += [('CTLS', 2, ['A (G F p --> G F q)'], {})]          # e=4: ~9 min
+    rep.cov['bounds'].update(n='1..2' + (' ; n=3 for 40 formulas with <=2 temporal operators' if tier == 'thorough' else ''), formulas=len(fs))
+    done, fallback = 0, 0
+    for t, st, recs, secs in pmap(mc.mc_task, tasks, mem_heavy=(tier == 'thorough')):
+        if st != 'ok':
+            rep.inconclusive('task %s n=%s %s: %s' % (t[0], t[1], t[2][:2], recs))
+            continue
+        absorb_mc(rep, 'C03', recs, ('verdict', 'noexc', 'unwind', 'stable'), 'CTLS.modelcheck(K, f) == CTL* semantics on every total K with n states')
+        done += sum(1 for r in recs if r.get('verdict') == 'unsat')
+        fallback += sum(1 for r in recs if any('LTL.model_checking.modelcheck' in x for x in r.get('encoded', ())))
+    rep.cov['twins']['runs_that_encoded_the_LTL_fallback'] = fallback
+    if not fallback:
+        rep.inconclusive('no run took the LTL fallback (vacuity twin)')
+    rep.cov['programs'] = len(fs)
+    rep.cov['states'] = done
+    rep.cov['transitions'] = done
+    rep.cov['states_meaning'] = '(formula, n) pairs decided unsat; each covers every total structure with n states over {p,q}'
